@@ -611,6 +611,7 @@ theorem path_parses (comps : List Comp) (h : ∀ c ∈ comps, DotOK c) :
   have := pPipe_of_postfix _ tk ts _ _ hs hp (.inl rfl)
   rw [← hts] at this
   rw [show (pathToks comps).length * 4 + 50 = (pathToks comps).length * 4 + 47 + 1 + 2 from rfl, this]
+  simp only [Bool.false_and, Bool.false_eq_true, if_false]
 
 /-! ### evaluation -/
 
